@@ -180,8 +180,10 @@ CHECKS = {
              "count_star_counts_rows, filter_kwarg (the case-rewrite of filter= aggregates exactly the rows where the condition is true), ungrouped_one_row (also "
              "for empty input), summarize_visible (grouping columns minus overwritten names, then the aggregates; ungrouped result), filter_after_summarize. Tie: "
              "frames of Polars and SQLite for generated programs (computed / boolean / string / nullable keys, all-null groups, empty tables, verbs before and "
-             "after) vs Spec.run and Sql.run. Partial: 'one row per distinct key combination' is the Spec's definition (partitionIdx) validated by comparison, not "
-             "a separate theorem; mean on floats is compared, not proved.",
+             "after) vs Spec.run and Sql.run. Lemmas/Partition.lean and one_group_per_key / groups_cover_rows / group_rows_share_key / grouped_rows: the groups of the reference "
+             "semantics have pairwise different key tuples (null a value of its own), a tuple has a group exactly when an input row carries it, every input "
+             "row is in exactly one group, no group is empty, and the number of output rows is the number of distinct key tuples. Partial: that Polars' "
+             "group_by and SQLite's GROUP BY form the same groups is by comparison; mean on floats is compared, not proved.",
         design_ref="DESIGN.md section 5, C04",
         note=NOTE_COMMON + "Known findings by trigger: D10, D11, D15, D30, D42, D48 …",
     ),
@@ -192,7 +194,8 @@ CHECKS = {
              "arrange_perm (no row dropped, duplicated or changed), arrange_sorted (sorted for a total preorder), arrange_stable (rows not strictly out of order keep "
              "their relative order: a later arrange takes priority, the earlier one breaks ties), arrange_no_keys, arrange_sorted_id, slice_after_arrange, "
              "select_rename_keep_order, filter_keeps_order, evalUnits_length and window_mutate_keeps_rows (one value per row; rows neither dropped nor reordered), "
-             "row_number_spec, rank_spec, window_agg_spec, windowOp_rows, implicit_partition (preprocess_arg writes the grouping columns into partition_by) and "
+             "row_number_spec, rank_spec, window_agg_spec, windowOp_rows, partitions_cover_rows / partition_is_key_class (every row in exactly one partition, a "
+             "partition = the rows carrying its partition_by values), implicit_partition (preprocess_arg writes the grouping columns into partition_by) and "
              "group_mutate_ungroup_rows. Partial: Polars' rank-based emulation of descending/nulls_last inside over() and SQL's OVER clause are modelled and "
              "compared, not proved; window functions are generated with total arrange= orders.",
         design_ref="DESIGN.md section 5, C05",
